@@ -783,8 +783,20 @@ func (vc *VC) loadObject(st *State, ref Term, t types.Type) (Term, error) {
 		return Select(vc.heapGet(st, key, hs), ref), nil
 	default:
 		key, hs := vc.cellKey(t)
+		vc.noteCellDeref(ref, t)
 		return Select(vc.heapGet(st, key, hs), ref), nil
 	}
+}
+
+// noteCellDeref records the aliasing assumption behind a load/store through a pointer to a
+// non-struct value that the function did not create itself: the pointer is taken to address a
+// standalone variable, never a struct field or slice element (interior pointers that the
+// verified code creates itself are tracked exactly and never reach this path).
+func (vc *VC) noteCellDeref(ref Term, t types.Type) {
+	if vc.dry > 0 || strings.HasPrefix(ref.S, "new_") {
+		return
+	}
+	vc.trusted["assumed: pointers to "+types.TypeString(t, nil)+" received from the heap or the caller address standalone variables, not struct fields or slice elements"] = true
 }
 
 func (vc *VC) storeObject(st *State, ref Term, t types.Type, v Term) error {
@@ -808,6 +820,7 @@ func (vc *VC) storeObject(st *State, ref Term, t types.Type, v Term) error {
 		vc.setHeap(st, key, vc.bind("E", Store(vc.heapGet(st, key, hs), ref, v)), -1)
 	default:
 		key, hs := vc.cellKey(t)
+		vc.noteCellDeref(ref, t)
 		vc.setHeap(st, key, vc.bind("C", Store(vc.heapGet(st, key, hs), ref, v)), -1)
 	}
 	return nil
